@@ -121,6 +121,11 @@ type node struct {
 	readRecv   map[string]int // ctx -> earliest step this incarnation received the request
 	leadTicks  int
 	lastHeard  map[uint64]int
+	cqHeard    map[uint64]bool
+	roAcks     map[uint64]uint64 // reference model of the leader's read confirmation state
+	roTotal    uint64
+	roConf     uint64
+	roOff      bool
 	hbAck      map[uint64]int // peer -> max createStep of a heartbeat whose response was delivered in this leadership
 	grants     map[uint64]bool
 	answers    map[uint64]bool // vote answers delivered in the current (pre-)candidacy, first answer per voter
@@ -431,6 +436,20 @@ func (w *World) start(n *node, applied uint64, first bool) {
 		}
 		w.guard(n, "bootstrap", func() { must(rn.Bootstrap(peers)) })
 		w.Stats["legacy-bootstrap"]++
+	}
+	if w.Cfg.Legacy && !first && d.lastIndex() > 0 && w.isInitialMember(n.id) && (uint64(w.step)+n.id)%3 == 0 {
+		// an application that starts every time through the StartNode path:
+		// Bootstrap on a non-empty Storage must fail and change nothing
+		var peers []raft.Peer
+		for _, id := range w.Cfg.Voters {
+			peers = append(peers, raft.Peer{ID: id})
+		}
+		var err error
+		w.guard(n, "bootstrap", func() { err = rn.Bootstrap(peers) })
+		if err == nil && n.up() {
+			w.violate("C07", []string{"C14"}, "node %d: Bootstrap succeeded on a non-empty Storage (last index %d)", n.id, d.lastIndex())
+		}
+		w.Stats["bootstrap-on-restart-refused"]++
 	}
 	if hs := d.hardState(); hs != nil {
 		n.startTerm, n.expTerm, n.expVote, n.expCommit = hs.GetTerm(), hs.GetTerm(), hs.GetVote(), hs.GetCommit()
